@@ -43,6 +43,13 @@ func WithMetrics(enabled bool) FactoryOption {
 	}
 }
 
+// sharedIKCacheEnabled reports whether sessions share a single intermediate key cache.
+// As documented on CryptoPolicy, SharedIntermediateKeyCache is ignored if
+// CacheIntermediateKeys is disabled.
+func sharedIKCacheEnabled(policy *CryptoPolicy) bool {
+	return policy != nil && policy.SharedIntermediateKeyCache && policy.CacheIntermediateKeys
+}
+
 // NewSessionFactory creates a new session factory with default implementations.
 func NewSessionFactory(config *Config, store Metastore, kms KeyManagementService, crypto AEAD, opts ...FactoryOption) *SessionFactory {
 	if config.Policy == nil {
@@ -58,7 +65,7 @@ func NewSessionFactory(config *Config, store Metastore, kms KeyManagementService
 	}
 
 	var ikCache keyCacher
-	if config.Policy.SharedIntermediateKeyCache {
+	if sharedIKCacheEnabled(config.Policy) {
 		ikCache = newKeyCache(CacheTypeIntermediateKeys, config.Policy)
 		log.Debugf("new shared ikCache: %v\n", ikCache)
 	}
@@ -93,7 +100,7 @@ func (f *SessionFactory) Close() error {
 		f.sessionCache.Close()
 	}
 
-	if f.Config.Policy.SharedIntermediateKeyCache {
+	if sharedIKCacheEnabled(f.Config.Policy) {
 		f.intermediateKeys.Close()
 	}
 
@@ -117,7 +124,7 @@ func newSession(f *SessionFactory, id string) (*Session, error) {
 	skCache := f.systemKeys
 
 	var ikCache keyCacher
-	if f.Config.Policy.SharedIntermediateKeyCache {
+	if sharedIKCacheEnabled(f.Config.Policy) {
 		ikCache = f.intermediateKeys
 	} else {
 		ikCache = f.newIKCache()
